@@ -243,6 +243,21 @@ def ttree_label_mismatch(args):
     return False, "all label-count mismatches are refused"
 
 
+@driver
+def branch_lines(args):
+    "every backend books one Branch(\"<column>\", &<member>) line per column"
+    import re
+    for backend, fname in [("atlas", "query.cxx"), ("cms_aod", "Analyzer.cc"), ("cms_miniaod", "Analyzer.cc")]:
+        coll = {"atlas": "e.Jets('AntiKt4EMTopoJets')", "cms_aod": "e.Tracks('globalMuons')", "cms_miniaod": "e.Muons('slimmedMuons')"}[backend]
+        q = _dataset().SelectMany("lambda e: " + coll).Select("lambda j: (j.pt(), j.eta())").AsROOTTTree("f.root", "t", ["my_pt", "my_eta"])
+        info, files = translate(q, backend)
+        got = re.findall(r'myTree->Branch\("([^"]*)", &(\w+)\);', files[fname])
+        if [g[0] for g in got] != ["my_pt", "my_eta"]:
+            bad = [l.strip() for l in files[fname].splitlines() if "Branch" in l]
+            return True, "%s: the booking code does not declare the columns my_pt, my_eta: %r" % (backend, bad[:3])
+    return False, "all three backends book the two columns"
+
+
 def main():
     name = sys.argv[1]
     args = json.loads(sys.argv[2]) if len(sys.argv) > 2 else {}
